@@ -48,6 +48,7 @@ Definition apply_op (base : envlist) (e : exec) (o : op) : option exec :=
   | OEnvRemove k => Some (set_env e (filter (fun kv => negb (str_eqb (fst kv) k)) (ensure_env base e)))
   | OEnvClear => Some (set_env e [])
   | OCwd d => Some (mkexec (b_command e) (b_args e) (b_env e) (Some d) (b_in e) (b_out e) (b_err e) (b_detached e) (b_data e))
+  | OStdin (IRedir BMerge) => None      (* From<Redirection> for InputRedirection panics: Merge is for outputs only *)
   | OStdin (IRedir r) =>
     match set_once (b_in e) r with
     | Some r' => Some (mkexec (b_command e) (b_args e) (b_env e) (b_cwd e) r' (b_out e) (b_err e) (b_detached e) (b_data e))
@@ -105,13 +106,15 @@ Inductive term := TPopen | TJoin | TStreamStdout | TStreamStderr | TStreamStdin 
 
 Record launch := mklaunch {
   l_argv : list str; l_env : option envlist; l_cwd : option str;
-  l_in : bredir; l_out : bredir; l_err : bredir; l_detached : bool; l_data : option str
+  l_in : bredir; l_out : bredir; l_err : bredir; l_detached : bool; l_data : option str;
+  l_panics_after : bool       (* the process is started and the terminator then panics ("must provide input to
+                                 redirected stdin": capture/communicate on a piped stdin without input data) *)
 }.
 
 Definition popen (e : exec) : option launch :=
   match b_data e with
   | Some _ => None                                    (* "popen called with input data specified" *)
-  | None => Some (mklaunch (b_command e :: b_args e) (b_env e) (b_cwd e) (b_in e) (b_out e) (b_err e) (b_detached e) None)
+  | None => Some (mklaunch (b_command e :: b_args e) (b_env e) (b_cwd e) (b_in e) (b_out e) (b_err e) (b_detached e) None false)
   end.
 
 Definition no_data (e : exec) : exec :=
@@ -126,7 +129,8 @@ Definition setup_communicate (e : exec) : option launch :=
             end in
   match e2 with
   | Some e3 => match popen e3 with
-               | Some l => Some (mklaunch (l_argv l) (l_env l) (l_cwd l) (l_in l) (l_out l) (l_err l) (l_detached l) data)
+               | Some l => Some (mklaunch (l_argv l) (l_env l) (l_cwd l) (l_in l) (l_out l) (l_err l) (l_detached l) data
+                                          (match l_in l, data with BPipe, None => true | _, _ => false end))
                | None => None
                end
   | None => None
